@@ -262,6 +262,9 @@ class C14(object):
         bump(stats, 'alone_reference_evaluations', len(alone_answers))
         diverse = len(set(set_orders)) >= 2
         bump(stats, 'replica_evaluations', sum(len(o) for o in spec['orders']))
+        bump(stats, 'fault:F6_evaluations_under_other_hashseed',
+             sum(len(o) for h, o in zip(spec['hashseeds'], spec['orders']) if h != 0))
+        bump(stats, 'fault:evaluation_order_shuffled_per_replica', len(spec['orders']))
         add_set(stats, 'hashseeds_used', tuple(spec['hashseeds']))
         if diverse:
             bump(stats, 'probe:run_with_replicas_ordering_a_string_set_differently')
